@@ -124,7 +124,6 @@ class Dm14Query:
         ):
             error = int.from_bytes(data[2:5], byteorder="little", signed=False)
             edcp = data[5]
-            self.data_queue.put(None)
             if edcp == 0x06 or edcp == 0x07:
                 if error in j1939.ErrorInfo:
                     self.exception_queue.put(
@@ -138,6 +137,9 @@ class Dm14Query:
                             f"Device {hex(sa)} error: {hex(error)} edcp: {hex(edcp)}"
                         )
                     )
+            # wake the caller only after the error has been queued: it looks at the exception queue as soon
+            # as it gets this item
+            self.data_queue.put(None)
         else:
             length = data[0]
             if seed == 0xFFFF and length == self.object_count:
@@ -153,12 +155,12 @@ class Dm14Query:
                     if self._seed_from_key is not None:
                         self._send_dm14(self._seed_from_key(seed))
                     else:
-                        self.data_queue.put(None)
                         self.exception_queue.put(
                             RuntimeError(
                                 "Key requested from host but no seed-key algorithm has been provided"
                             )
                         )
+                        self.data_queue.put(None)
 
     def _parse_dm16(
         self, priority: int, pgn: int, sa: int, timestamp: int, data: bytearray
